@@ -1243,6 +1243,7 @@ def gen_C16(rng):
     afterwards everything obtained earlier is intact and usable"""
     ctx = Ctx(rng)
     ctx.emit("init " + rand_ctopts(rng))
+    ctx.emit("auditmode lenient")
     d1 = rand_domain(rng, "D1", False, 60, 3)
     d2 = Domain("D2", [rng.choice([2, 3, 4]) for _ in range(len(d1.sizes) + rng.choice([0, 1]))])
     if d2.sizes == d1.sizes:
